@@ -1,4 +1,4 @@
-\* tree T3w (chain longer than the rebuild window), one observer, 1 restart; Final/NoForkBelowLib (LAZY) and LibMonotone (UNCOND, see MC_DposLib_lower.cfg) are left out: they do not hold
+\* tree T3w (chain longer than the rebuild window, one-block fork at the tip), one observer, 2 restarts: all properties
 SPECIFICATION Spec
 CONSTANTS
   N = 3
@@ -6,11 +6,11 @@ CONSTANTS
   Nodes <- Obs1
   Blk0 <- T3w
   MaxBlocks = 15
-  MaxRestarts = 1
+  MaxRestarts = 2
   ByzMode = "branch"
   ByzRanges <- R123
-  Fixes <- NoFix
+  Fixes <- AllFixes
 VIEW view
 INVARIANTS TypeOK LibOnMain ConfirmsOnMain Agreement HonestConfirms
-PROPERTIES LibQuorum RestoreEqualsRecompute
+PROPERTIES LibMonotone Final NoForkBelowLib LibQuorum RestoreEqualsRecompute
 CHECK_DEADLOCK FALSE
